@@ -254,7 +254,15 @@ def get_delegate_pattern(name, trait):
     and delegate trait.
     """
     prefix = trait._prefix
-    if prefix == "":
+    prefix_type = getattr(trait.handler, "prefix_type", None)
+    if prefix_type == 2:
+        # 'prefix*': the (already stripped) prefix is prepended to the name.
+        prefix = prefix + name
+    elif prefix_type == 3:
+        # '*': the delegator class's __prefix__ is prepended to the name;
+        # this is resolved per object by _trait_delegate_name.
+        prefix = "*"
+    elif prefix == "":
         prefix = name
     elif (len(prefix) > 1) and (prefix[-1] == "*"):
         prefix = prefix[:-1] + name
